@@ -23,15 +23,22 @@ def dyadic_weights(rs, k, bits=5):
     return [p / tot for p in parts]
 
 
+CLT_DET = 0.0     # probability that a generated Chow-Liu leaf gets exact 0/1 table entries (set by C01/C02 only)
+
+
 def rand_clt(rs, scope):
     n = len(scope)
     order = list(rs.permutation(n)); tree = [-1] * n
     for k in range(1, n):
         tree[order[k]] = int(order[rs.randint(0, k)])
     p = rs.randint(1, 16, size=(n, 2)) / 16.0
+    if CLT_DET and rs.rand() < CLT_DET:
+        det = rs.rand(n, 2) < 0.5
+        p = np.where(det, rs.randint(0, 2, size=(n, 2)).astype(float), p)
     params = np.zeros((n, 2, 2)); params[:, :, 1] = p; params[:, :, 0] = 1 - p
     r = tree.index(-1); params[r, 1] = params[r, 0]
-    c = BinaryCLT(list(scope), tree=tree, params=np.log(params).tolist())
+    with np.errstate(divide="ignore"):
+        c = BinaryCLT(list(scope), tree=tree, params=np.log(params).tolist())
     c._verif_probs = params
     return c
 
